@@ -106,10 +106,18 @@ def _sizes(ctx, reqs, pending):
     N = 10 if ctx.tier == 'quick' else 24
     if ctx.search_mode:
         N = 24
+    import glob
+    import json
+    import os
+    corpus = []
+    root = os.path.join(os.path.dirname(os.path.dirname(os.path.dirname(os.path.abspath(__file__)))), 'corpus', 'C12')
+    for f in sorted(glob.glob(os.path.join(root, '*.json'))):
+        corpus += [tuple(x) for x in json.load(open(f)).get('sizes', [])]
+    corpus = [x for x in corpus if max(x) > N]      # the others are enumerated anyway
     ctx.exhaustive.append(f'tile_pixel_matrix, compute_tile_positions_per_frame, are_plane_positions_tiled_full, get_tile_array '
                           f'(cut and paste): every (matrix rows, matrix columns, tile rows, tile columns) in 1..{N} per dimension')
     k = 0
-    for R, C, tr, tc in itertools.product(range(1, N + 1), repeat=4):
+    for R, C, tr, tc in itertools.chain(corpus, itertools.product(range(1, N + 1), repeat=4)):
         k += 1
         g = grid(R, C, tr, tc)
         case = {'sizes': [R, C, tr, tc]}
